@@ -36,6 +36,35 @@ def streams(ctx, scale=1):
     return [{"name": "params-base", "cfg": "base", "exe": exe, "lines": lines}]
 
 
+def _table_ids():
+    """identifiers of the curve table the translator extracted for this run (lean/RelicVerif/Gen/Params.lean)"""
+    import os, re
+    f = os.path.join(os.path.dirname(os.path.dirname(os.path.dirname(os.path.abspath(__file__)))), "lean", "RelicVerif", "Gen", "Params.lean")
+    try:
+        txt = open(f).read()
+    except OSError:
+        return set()
+    txt = txt[txt.find("def curves"):]
+    return {int(m.group(1)) for m in re.finditer(r'name := "\w+", id := (\d+), field :=', txt)}
+
+
+def postprocess(ctx, recs):
+    """every entry of the extracted table must be accepted by the running library (the converse — every accepted identifier is in the
+    table and agrees with it — is the driver's judgement of the ep_param line)"""
+    ids = _table_ids()
+    seen = set()
+    for r in recs:
+        t = r["line"].split()
+        if len(t) == 2 and t[0] == "ep_param" and t[1].isdigit():
+            cid = int(t[1])
+            if cid in ids:
+                seen.add(cid)
+                if r["got"].startswith("err") and not r["verdict"].startswith("FAIL"):
+                    r["verdict"] = "FAIL S model=[] spec=[ep_param %d selects the table entry extracted from the source] got=[err]" % cid
+    if recs and ids - seen:
+        recs[0]["verdict"] = "FAIL S model=[] spec=[every table entry is offered to the library] got=[never offered: %s]" % sorted(ids - seen)
+
+
 def search_streams(ctx, mfail):
     return streams(ctx)
 
